@@ -132,14 +132,40 @@ def resolveSimple (c : Catalog) (parts : List Name) : Option (Name × List Name)
     else c.defaultNs.map (·, parts)
   | _ => c.defaultNs.map (·, parts)
 
-/-- `PlanJoinTablesQuery.resolve_table` (identifier operands) as of commit b8a8b6b: the same rule as
-`resolve_database_table` (case-insensitive, only when there are at least two parts) -/
+/-- what `PlanJoinTablesQuery.resolve_table` returns (`TableInfo`), as far as name resolution is concerned -/
+structure TableInfo where
+  integration : Option Name
+  table : List Name            -- `table.parts` after the qualifier was popped
+  aliases : List (List Name)   -- names under which columns may refer to the table (lower-cased)
+  bareName : Bool              -- written without any qualifier: may be a CTE name (6dae0a8)
+  deriving DecidableEq, Repr
+
+/-- `PlanJoinTablesQuery.resolve_table`, transcribed from plan_join.py line by line (NOT from
+`resolve_database_table`): `alias`: `table.alias.parts`; `hasSubSelect`: the placeholder identifier of a
+sub-select operand carries a `sub_select` attribute and is never refused.  `none` = PlanningException. -/
+def resolveTableCore (c : Catalog) (parts : List Name) : Option Name × List Name :=
+  -- try to use default namespace
+  let integration0 := c.defaultNs
+  if parts.length > 1 then
+    if lower (parts.headD []) ∈ c.databases then (some (lower (parts.headD [])), parts.tail)
+    else (c.defaultNs, parts)
+  else (integration0, parts)
+
+def resolveTable (c : Catalog) (parts : List Name) (alias : Option (List Name)) (hasSubSelect : Bool) :
+    Option TableInfo :=
+  -- get possible table aliases
+  let aliases : List (List Name) :=
+    match alias with
+    | some a => [a.map lower]
+    | none => (List.range parts.length).map fun i => (parts.drop i).map lower
+  -- written without any qualifier: may be a CTE name
+  let bareName := parts.length == 1
+  if (resolveTableCore c parts).1.isNone && !hasSubSelect then none
+  else some ⟨(resolveTableCore c parts).1, (resolveTableCore c parts).2, aliases, bareName⟩
+
+/-- the (integration, remaining parts) of `resolve_table` for an identifier operand -/
 def resolveJoin (c : Catalog) (parts : List Name) : Option (Name × List Name) :=
-  match parts with
-  | p :: q :: r =>
-    if lower p ∈ c.databases then some (lower p, q :: r)
-    else c.defaultNs.map (·, parts)
-  | _ => c.defaultNs.map (·, parts)
+  (resolveTable c parts none false).bind fun ti => ti.integration.map (·, ti.table)
 
 /-- the resolver before b8a8b6b (kept for the regression examples): compared `parts[0]` as written
 and popped it even when it was the only part -/
@@ -618,7 +644,7 @@ def resolveAlls (fed : Bool) (db : Name) (sch : Schema) (chain : List (List Inst
   | .cons s ss => resolveAll fed db sch chain s ++ resolveAlls fed db sch chain ss
 end
 
-/-- the cut applied to a plain part list (no trailing star); `names = []`: the code today -/
+/-- the cut applied to a plain part list (no trailing star); `names = []`: nothing is protected (the cut before 1ea1207) -/
 def cut (db : Name) (names : List Name) (isTab : Bool) (parts : List Name) : List Name :=
   stripPartsN db names isTab parts false
 
